@@ -19,6 +19,21 @@
 //! ```
 //! All three are state-changing (a `dump` follows them in the quick tier).  `f<j>` of a removed file stays a valid
 //! (stale) handle.
+//!
+//! ## Harness-only pseudo requests (never written to req.txt; they appear in `fail_<n>.req` and are understood by `--replay`)
+//!
+//! `#dup m<k>` evaluates the `duplicate()` part of C13 on model k, `#twin e<a> e<b>` the order-independence part of C14.
+//!
+//! ## Rare triggers
+//!
+//! Triggers of known defect families are generated only in histories flagged for them (0.7 % - 1.5 % of the histories
+//! each, printed as `rare-triggers=` in every failure message): container move/copy collisions, moves to an ancestor,
+//! `cdata` on a MIXED element with children, `remove e<x> e<x>`, renames above dangling references, removal of the last
+//! file / of the root from a file, stale file handles, edits of the attributes/comment of <AUTOSAR>, file splits that a
+//! `move` or a SHORT-NAME inherits.  The `SIG_*` constants list all signatures; those below the comment
+//! "families found by this scenario" are not part of the task's list.
+//!
+//! `AVH_DEBUG=1` prints every request verb and every library error to stderr and keeps the default panic hook.
 use crate::util::*;
 use autosar_data::*;
 use autosar_data_specification::CharacterDataSpec;
@@ -627,6 +642,8 @@ pub struct Checker {
     emptied: HashSet<usize>,
     /// a file-set trigger of a known family happened earlier in this history: later C10 / file-scoped C03 failures belong to it
     files_sticky: Option<(&'static str, &'static str)>,
+    /// how often the kind-specific oracles were actually evaluated (statistics)
+    pub counts: BTreeMap<&'static str, u64>,
 }
 
 fn walk(e: &Element, depth: usize, parent: Option<usize>, out: &mut Vec<(usize, Element, Option<usize>)>) {
@@ -742,6 +759,7 @@ impl Checker {
             dups: vec![],
             emptied: HashSet::new(),
             files_sticky: None,
+            counts: BTreeMap::new(),
         }
     }
 
@@ -1248,6 +1266,7 @@ impl Checker {
                 }
             }
         }
+        *self.counts.entry("oracle.c13_copies_compared").or_insert(0) += 1;
         self.pairs.push((src.clone(), cp));
         if self.pairs.len() > 3 {
             self.pairs.remove(0);
@@ -1265,6 +1284,7 @@ impl Checker {
         let before = self.w.dump();
         match quiet(|| m.duplicate()) {
             Some(Ok(d)) => {
+                *self.counts.entry("oracle.c13_duplicates_compared").or_insert(0) += 1;
                 for f in m.files() {
                     let other = d.files().find(|x| x.filename() == f.filename());
                     let same = other.as_ref().is_some_and(|o| file_ser(o).ok() == file_ser(&f).ok());
@@ -1312,6 +1332,7 @@ impl Checker {
     pub fn twin_check(&mut self, a: usize, b: usize) -> Vec<Failure> {
         let mut out = vec![];
         if self.on("C14") && self.reach.contains(&a) && self.reach.contains(&b) {
+            *self.counts.entry("oracle.c14_twin_comparisons").or_insert(0) += 1;
             let (ea, eb) = (&self.w.elems[a], &self.w.elems[b]);
             if ea.serialize() != eb.serialize() {
                 out.push(Failure::new("C14", "order-dependent", format!("e{a} and e{b} hold the same siblings inserted in different orders; after sorting both they serialize differently")));
@@ -1500,6 +1521,7 @@ impl Checker {
                 out.extend(v);
             }
             if !self.stop_c456 && ok && (verb == "rename" || verb == "move") && self.on("C06") && !refs_pre.is_empty() {
+                *self.counts.entry("oracle.c06_checked").or_insert(0) += 1;
                 self.c06(req, &refs_pre, &subj_sub, cross_model, renamed_from.as_deref(), &mut out);
             }
             if mixed_hit {
@@ -1508,6 +1530,7 @@ impl Checker {
             }
         }
         if let Some(sp) = &sort_pre {
+            *self.counts.entry("oracle.c14_sorts_checked").or_insert(0) += 1;
             for (i, sh) in &sp.shapes {
                 if *i == usize::MAX {
                     continue;
@@ -1538,6 +1561,7 @@ impl Checker {
         }
         if c13 {
             if ok {
+                *self.counts.entry("oracle.c13_independence_checks").or_insert(0) += pair_pre.len() as u64;
                 for (pi, side, ser) in &pair_pre {
                     let (src, cp) = &self.pairs[*pi];
                     let other = if *side == Side::Cp { src } else { cp };
@@ -1573,6 +1597,7 @@ impl Checker {
                 out.extend(v);
             }
             if let Some(p) = &rmfile_pre {
+                *self.counts.entry("oracle.c10_rmfile_checked").or_insert(0) += 1;
                 self.rmfile_post(req, p, &mut out);
             }
         }
@@ -2882,6 +2907,9 @@ impl Gen {
         let live: usize = self.ck.live.iter().map(|l| l.len()).sum();
         let refs: Vec<Element> = self.ck.live.iter().flat_map(|l| l.iter()).map(|i| self.ck.w.elems[*i].clone()).filter(|e| e.is_reference()).collect();
         let dangling = refs.iter().filter(|e| ref_text(e).is_some() && e.get_reference_target().is_err()).count();
+        for (k, v) in self.ck.counts.clone() {
+            *self.stats.entry(k.to_string()).or_insert(0) += v;
+        }
         *self.stats.entry("final.live_elements".to_string()).or_insert(0) += live as u64;
         *self.stats.entry("final.stale_handles".to_string()).or_insert(0) += self.ck.stale_ids().len() as u64;
         *self.stats.entry("final.references".to_string()).or_insert(0) += refs.len() as u64;
